@@ -520,8 +520,33 @@ def _ancestors(repo, n, stop):
         p = repo.parent(p)
 
 
+def r04_11(ctx):
+    """R04.11 parser 2 keeps no state from one line to the next that parser 1 does not keep: (a) nothing in the expression
+    conversion is memoised over the macro table / environment (a macro may be redefined between two textually identical
+    uses; parser 1 re-expands every line); (b) the line pre-processor returns every line with its trailing blanks removed,
+    whatever path it takes (the option-block grammar positions itself by the preceding newline); (c) in the option-block
+    loop a per-line local (the `if` condition of the line) is bound in the iteration that uses it."""
+    from .common import loop_locals_bound_per_iteration, memo_purity
+    repo = ctx.repo
+    n = memo_purity(ctx, P2, (".variables", "os.environ"), "the second of two identical expressions keeps the macro value of the first")
+    ctx.ok("Parser (v2)/memoised conversions examined", "", nontrivial=False, memo_sites=n)
+    ric = [f for f in repo.funcs_in("esp_kconfiglib.kconfig_grammar") if f.name == "remove_inline_comments"]
+    if not ric:
+        raise AnchorError("kconfig_grammar: remove_inline_comments not found")
+    f = ric[0]
+    ctx.analysed(f.qual)
+    from .common import expand_locals
+    for i, r in enumerate(x for x in ast.walk(f.node) if isinstance(x, ast.Return)):
+        construct = f"remove_inline_comments/return #{i + 1} hands back the line without trailing blanks"
+        t = expand_locals(f.node, r.value) if r.value is not None else ""
+        (ctx.ok(construct, f.loc(r)) if ".rstrip()" in t else
+         ctx.bad(construct, f"`return {ast.unparse(r.value) if r.value else ''}` skips the rstrip() of the other path: a `config NAME   ` line keeps its blanks "
+                 "and parser 2 reads an empty option block where parser 1 reads the entry", f.loc(r)))
+    pi = repo.func("esp_kconfiglib.kconfig_grammar:KconfigOptionBlock.parseImpl")
+    loop_locals_bound_per_iteration(ctx, pi.qual, names=None, why="An unconditional select / imply inherits the `if` of an earlier line in parser 2 only.")
+
 def rules():
-    return [("R04.10", r04_10, 4), ("R04.1", r04_1, 20), ("R04.2", r04_2, 25), ("R04.3", r04_3, 14), ("R04.4", r04_4, 8), ("R04.5", r04_5, 5),
+    return [("R04.11", r04_11, 3), ("R04.10", r04_10, 4), ("R04.1", r04_1, 20), ("R04.2", r04_2, 25), ("R04.3", r04_3, 14), ("R04.4", r04_4, 8), ("R04.5", r04_5, 5),
             ("R04.6", r04_6, 3), ("R04.7", r04_7, 3), ("R04.8", r04_8, 4), ("R04.9", r04_9, 2)]
 
 
